@@ -4,6 +4,7 @@ use vstd::prelude::*;
 use core::cmp::Ordering;
 use core::marker::PhantomData;
 use core::mem;
+use core::slice;
 verus! {
 
 // ---- theory: base.rs ----
@@ -55,6 +56,8 @@ pub assume_specification [char::to_ascii_lowercase] (c: &char) -> (r: char) ensu
 /// byte length of the UTF-8 encoding (uninterpreted; only that it is a function of the text is used)
 pub uninterp spec fn utf8_len(s: Seq<char>) -> nat;
 pub assume_specification [String::len] (s: &String) -> (r: usize) ensures r == utf8_len(s@);
+
+pub assume_specification [std::string::String::with_capacity] (n: usize) -> (r: String) ensures r@ == Seq::<char>::empty();
 
 // ---- string wrappers (R3): body IS the original call; only the contract is assumed ----
 #[verifier::external_body]
@@ -1066,6 +1069,45 @@ pub fn remove_typed<Q>(&mut self) where Q: KnownQualifierKey,
                 final(self).qualifiers@ == old(self).qualifiers@.remove(pos_of(old(self).qualifiers@, lower_ascii_seq(Q::KEY@)))
 {
         self.remove(Q::KEY);
+    }
+}
+// ---- unit T.Iter  <= purl/src/qualifiers.rs:489 ----
+pub struct Iter<'a>(pub slice::Iter<'a, (QualifierKey, SmallString)>);
+// ---- unit spec.Iter  <= (contracts):0 ----
+
+impl<'a> Iter<'a> {
+    /// the pairs still to be yielded
+    #[verifier::prophetic]
+    pub open spec fn rem(&self) -> Seq<&'a (QualifierKey, SmallString)> { vstd::std_specs::iter::IteratorSpec::remaining(&self.0) }
+}
+
+impl Qualifiers {
+// ---- unit U-qmap.iter  <= purl/src/qualifiers.rs:66 ----
+pub fn iter(&self) -> (r: Iter)
+        ensures r.rem().len() == self.qualifiers@.len(),
+            forall|i: int| 0 <= i < self.qualifiers@.len() ==> *(#[trigger] r.rem()[i]) == self.qualifiers@[i]
+{
+        Iter(self.qualifiers.iter())
+    }
+// ---- unit U-qmap.into_iter  <= purl/src/qualifiers.rs:301 ----
+pub fn into_iter(&self) -> (r: Iter<'_>)
+        ensures r.rem().len() == self.qualifiers@.len(),
+            forall|i: int| 0 <= i < self.qualifiers@.len() ==> *(#[trigger] r.rem()[i]) == self.qualifiers@[i]
+{
+        self.iter()
+    }
+}
+impl<'a> Iter<'a> {
+// ---- unit U-qmap.Iter.next  <= purl/src/qualifiers.rs:494 ----
+pub fn next(&mut self) -> (r: Option<(&'a QualifierKey, &'a str)>)
+        ensures
+            old(self).rem().len() == 0 ==> r is None,
+            old(self).rem().len() > 0 ==> r is Some
+                && r->Some_0.0.0@ == old(self).rem()[0].0.0@ && r->Some_0.1@ == old(self).rem()[0].1@
+                && final(self).rem() == old(self).rem().skip(1),
+{
+        let (k, v) = self.0.next()?;
+        Some((k, v.as_str()))
     }
 }
 
